@@ -70,6 +70,7 @@ func guardFor(f func(), scale int) (panicMsg string) {
 	limit := hangLimit * time.Duration(scale)
 	cpu0, wall0 := processCPU(), time.Now()
 	idleCPU, idleSince := cpu0, wall0
+	lastTick, lastCPU := wall0, cpu0
 	tick := time.NewTicker(250 * time.Millisecond)
 	defer tick.Stop()
 	for {
@@ -83,6 +84,17 @@ func guardFor(f func(), scale int) (panicMsg string) {
 			}
 			return msg
 		case <-tick.C:
+			// this watchdog was itself not run for several seconds although its ticker fires four times a second: the
+			// process as a whole was stopped (a snapshot of the virtual machine, SIGSTOP, a machine out of memory). Such a
+			// gap says nothing about the call; the clocks jump over it -- the wall clock by the length of the gap, the
+			// CPU clock by whatever the kernel charged meanwhile (after a snapshot: the whole gap, to the thread that
+			// happened to run). A call that loops or blocks does not stop the ticker from being served.
+			now, cpuNow := time.Now(), processCPU()
+			if gap := now.Sub(lastTick); gap > 5*time.Second {
+				wall0, idleSince = wall0.Add(gap), idleSince.Add(gap)
+				cpu0, idleCPU = cpu0+(cpuNow-lastCPU), idleCPU+(cpuNow-lastCPU)
+			}
+			lastTick, lastCPU = now, cpuNow
 			// blocked: the call has not returned and the whole process has used next to no CPU for 45 seconds
 			// (a busy machine slows a running call down, it does not stop its CPU clock; a machine that is out of
 			// memory can stall a process for seconds, hence the long window)
